@@ -167,13 +167,10 @@ def _with_handler(runs, entry, first):
         if r.kind != "val":
             out.append(r)
             continue
-        v = r.state.get("self.exception_handlers", None)
-        key = heap_key(v) if is_handle(v) else "self.exception_handlers"
-        cur = r.state.get(key, None)
-        if not (isinstance(cur, tuple) and cur[:1] == ("tuple",)):
+        st = cm.with_handler(r.state, entry, first)
+        if st is None:
             return None
-        new = ("tuple", entry) + tuple(cur[1:]) if first else cur + (entry,)
-        out.append(type(r)(r.kind, r.value, r.state.set(key, new)))
+        out.append(type(r)(r.kind, r.value, st))
     return out
 
 
@@ -208,6 +205,29 @@ def check_user_handlers(ctx, case):
                 if called or ocs != [cm.KINDS[kind][1]]:
                     problems.add(f"the user's handler is called {len(called)} time(s) and the outcomes are {ocs}; expected {[cm.KINDS[kind][1]]} from the entry that precedes it in the list")
         ctx.check("R-FIRST-MATCH", f"[{label}; the test raises {cm.KINDS[kind][0]}] the first entry of exception_handlers whose class matches reports", case.node, bool(runs) and not problems,
+                  "; ".join(sorted(problems)) or "no path", examined=len(runs), construct=f"{Q}::{label} / {kind}")
+    # the list is consulted when the outcome is chosen: an entry the user's own code inserts while the test runs (the documented
+    # `self.exception_handlers.insert(...)` in setUp or in the test) decides like one put there before run()
+    timed = [
+        ("setUp puts a handler for AssertionError first", "setUp", ("excclass", "AssertionError"), True, "test", "fail", True),
+        ("setUp puts a handler for SkipTest first", "setUp", ("excclass", "SkipTest"), True, "test", "skip", True),
+        ("the test puts a handler for a user exception class first, a cleanup raises it", "test", ("excclass", "CustomError"), True, "cleanup", "custom", True),
+        ("the test puts a handler for a user exception class first and raises it", "test", ("excclass", "CustomError"), True, "test", "custom", True),
+        ("setUp appends a handler for SkipTest (after the built-in entry)", "setUp", ("excclass", "SkipTest"), False, "test", "skip", False),
+    ]
+    for label, inserter, cls, first, raiser, kind, custom_wins in timed:
+        script = _script({raiser: kind})
+        script[inserter] = [("handler", ("tuple", cls, H), first)] + list(script.get(inserter, ()))
+        d, runs = cm.run_case(ctx, script)
+        problems = set()
+        for r in runs:
+            called = [(pos, kw) for n, pos, kw in cm.events(r, ("user.custom_handler",))]
+            ocs = cm.outcomes(r)
+            if custom_wins and (len(called) != 1 or ocs):
+                problems.add(f"the user's handler is called {len(called)} time(s) and the built-in outcomes are {ocs}; expected the user's handler alone, once (it is first in the list when the outcome is chosen)")
+            if not custom_wins and (called or ocs != [cm.KINDS[kind][1]]):
+                problems.add(f"the user's handler is called {len(called)} time(s) and the outcomes are {ocs}; expected {[cm.KINDS[kind][1]]} from the entry that precedes it")
+        ctx.check("R-FIRST-MATCH", f"[{label}; {raiser} raises {cm.KINDS[kind][0]}] entries inserted while the test runs take part in list order", case.node, bool(runs) and not problems,
                   "; ".join(sorted(problems)) or "no path", examined=len(runs), construct=f"{Q}::{label} / {kind}")
 
 
